@@ -695,8 +695,8 @@ def c10(tier):
                 'compound array initializer) injected into a program that prints before and after every position; (2) seeded random programs with a high fault rate; (3) cyclic heaps '
                 '(self loop, 2-cycle, through object field / parent-of-element, ring of N), acyclic chains of N links reaching print and dispatch, FML recursion depth N, source nesting N; '
                 '(4) token-level mutations of valid sources. All through the real CLI as subprocesses (`fml run`, and `fml execute` of the compiled bytes): TLC runs FMLSource on the AST and '
-                'compares stdout + status, with the process rules (success <=> exit 0 + empty stderr; failure <=> normal non-zero exit + diagnostic; death by signal matches nothing); sources '
-                'the parser rejects are judged by TraceProcess (clean rejection before any output). distinct_nontrivial = distinct (program, action) observations judged.' % (len(FAULTS), len(POSITIONS)))
+                'compares stdout + status, with the process rules (success <=> exit 0 + empty stderr; failure <=> normal non-zero exit + diagnostic; death by signal matches nothing); token-mutated '
+                'sources are first judged by the TLA+ grammar FMLParser (program or not, which tree); those that are not programs must be rejected cleanly before any output (TraceProcess). distinct_nontrivial = distinct (program, action) observations judged.' % (len(FAULTS), len(POSITIONS)))
     exe = build('debug')
     wd = scratch('c10')
     rng = random.Random(seed())
@@ -711,11 +711,40 @@ def c10(tier):
     progs += pool.random_programs(tier_sizes(tier, 60, 1500), base_seed=seed() * 9973 + 1, fault_rate=0.3, tag='faulty')
     progs += deep_programs(tier)
     base = pool.random_programs(tier_sizes(tier, 80, 2500), base_seed=seed() * 4049 + 9, fault_rate=0.0, tag='mut')
+    from unparse import tokens_of, classify
+    from checks_io import mutate_token_list
+    import copy
+    mutated_tokens = {}
     for b in base:
-        progs.append({'name': 'mutated:' + b['name'], 'text': mutate_tokens(b['text'], rng), 'ast': None})
+        toks = mutate_token_list(tokens_of(copy.deepcopy(b['ast'])), rng)
+        mutated_tokens[len(progs)] = toks
+        progs.append({'name': 'mutated:' + b['name'], 'text': ' '.join(toks), 'ast': None})
     # in-process pass gives ASTs (parser's for ast-less texts) and compiled bytes
     recs = [{'id': i, 'text': p['text'], 'want': ['ast'], 'budget': 10} for i, p in enumerate(progs)]
     outs = run_harness(exe, 'run', recs, wd, tag='c10h')
+    # token-mutated sources: the TLA+ grammar (FMLParser) says which are programs; the real parser must agree (then its tree is the tree the grammar prescribes)
+    trecs = []
+    for i, toks in mutated_tokens.items():
+        cl = [classify(x) for x in toks]
+        if all(c is not None for c in cl):
+            o = outs[i]
+            trecs.append({'id': i, 'toks': cl, 'status': 'panic' if o.get('crash') is not None else o.get('parse', 'panic'), 'parsed': o.get('ast', {'t': 'none'})})
+    if trecs:
+        tpath = os.path.join(wd, 'mut.toks.ndjson')
+        write_ndjson(tpath, trecs)
+        rk = tlc_or_die('TraceParseTokens', env={'TOKS': tpath}, workers=8, timeout=1200, tag='c10k')
+        chk.add_tlc(rk)
+        kv = {v['id']: v['verdict'] for v in rk.lines.get('VERDICT', [])}
+        if len(kv) != len(trecs):
+            raise ToolError('TraceParseTokens: %d verdicts for %d token sequences' % (len(kv), len(trecs)))
+        gram = {}
+        for i, v in kv.items():
+            gram[v] = gram.get(v, 0) + 1
+            chk.traces += 1
+            if v not in ('accepted', 'rejected'):
+                chk.violation('%s: the grammar says this source is %s' % (progs[i]['name'], v), {'program': progs[i]['name'], 'source': progs[i]['text'][:3000], 'verdict': v,
+                                                                                                'signature': {'kind': 'grammar', 'verdict': v}})
+        chk.notes['mutated_sources_judged_by_the_TLA_grammar'] = gram
     srecs, pobs, meta = [], [], {}
     tasks = []
     for i, p in enumerate(progs):
